@@ -222,7 +222,12 @@ def run_signal_case(case, v):
             log.append("resample(%d)" % n)
         elif op == "with_times":
             L = len(s.times)
-            if rng.random() < 0.6:
+            r_ = rng.random()
+            if r_ < 0.25:
+                # re-gridded onto the grid *array* of a signal that stays in use: that signal must not feel what happens to the result
+                nt = s.times
+                watched.append((s, sh.copy(), vt))
+            elif r_ < 0.7:
                 a_ = int(rng.integers(0, L // 2))
                 b_ = int(rng.integers(L // 2 + 2, L + 1))
                 nt = np.array(s.times[a_:b_])
@@ -314,6 +319,9 @@ def run_signal_case(case, v):
                     wf = np.array(fresh_from_shadow(wsh, wvt).values)
                 except Exception:       # noqa: BLE001 -- e.g. single-sample leftovers; not this clause's business
                     continue
+                if not v.check(np.shape(wobj.times) == np.shape(wsh.times) and bool(np.allclose(np.asarray(wobj.times, float), wsh.times, rtol=0, atol=1e-18)),
+                               "operands of earlier operations keep their own time grid", history=log[-8:]):
+                    break
                 if wv.shape == wf.shape:
                     wsc = max(float(np.max(np.abs(wf))), float(np.max(np.abs(wv))), 1e-30)
                     if not v.close("operands of earlier operations still report their own definition", float(np.max(np.abs(wv - wf))) / wsc, 1e-9, history=log[-8:]):
